@@ -287,9 +287,52 @@ def loop_bodies(ctx, repo, m):
                 ctx.violation('ldir_fast(inc=%d) %s: %s' % (inc, kind, o.text[:50]), '%s:%d' % (m.py.mod.relpath, line),
                               'in the fast LDIR/LDDR loop `%s` has range %s, outside what %s allows' % (o.text[:100], o.value, kind))
 
+PY_WRITERS = {
+    ('loadtracer', 'LoadTracer.fast_load'): 'ROM-loader shortcut; its stores are checked by the dominance rule C08.1',
+    ('pagingtracer', 'Memory.out7ffd'): 'assigns mapping slots 0 and 3 only (C08.4)',
+    ('skoolutils', 'Memory.out7ffd'): 'assigns mapping slots 0 and 3 only (C08.4)',
+    ('skoolutils', 'Memory.bank'): 'skool-file @bank directive: builds the 128K image before any simulation',
+    ('simutils', 'from_snapshot'): 'copies the ROM image into a fresh 48K memory before the simulator exists',
+    ('tap2sna', 'sim_load'): 'prepares ROM, system variables and the LOAD command before the simulator is created',
+    ('trace', 'run'): 'copies the ROM image into memory before the simulator is created',
+    ('skoolmacro', 'parse_audio'): 'copies simulator memory back into the writer snapshot after the run (target is not the simulator memory)',
+    ('skoolmacro', 'parse_sim'): 'copies simulator memory back into the writer snapshot after the run (target is not the simulator memory)',
+}
+
+def py_writers(ctx, repo):
+    ctx.rule('C08.1-pywriters', 'Python functions that store into a memory object outside the simulator classes are the enumerated set-up / copy-out sites', floor=8)
+    found = set()
+    for mod in repo.all_modules():
+        if mod.name in ('simulator', 'cmiosimulator'):
+            continue
+        def visit(body, qual):
+            for st in body:
+                if isinstance(st, ast.FunctionDef):
+                    hit = None
+                    for n in ast.walk(st):
+                        tgs = n.targets if isinstance(n, ast.Assign) else ([n.target] if isinstance(n, ast.AugAssign) else [])
+                        for t in tgs:
+                            if isinstance(t, ast.Subscript):
+                                b = ast.unparse(t.value)
+                                if b == 'memory' or b.endswith('.memory') or b == 's_memory':
+                                    hit = hit or n.lineno
+                    if hit:
+                        key = (mod.name, qual + st.name)
+                        found.add(key)
+                        if key in PY_WRITERS:
+                            ctx.ok({'function': '%s.%s' % key, 'allowed because': PY_WRITERS[key]})
+                        else:
+                            ctx.violation('%s.%s' % key, '%s:%d' % (mod.relpath, hit),
+                                          '%s.%s stores into a memory object but is neither a simulator handler nor a known set-up / copy-out site: simulated memory (including ROM) can change behind the simulator' % key)
+                    visit(st.body, qual + st.name + '.')
+                elif isinstance(st, ast.ClassDef):
+                    visit(st.body, st.name + '.')
+        visit(mod.tree.body, '')
+
 def run(ctx):
     repo = pyfacts.Repo(ctx.repo_root)
     m = simfacts.SimModel(repo)
+    py_writers(ctx, repo)
     slot_rules(ctx, m)
     extra_bodies(ctx, m)
     c_writers(ctx, m)
